@@ -207,7 +207,8 @@ class IpAnonymizer(_BaseIpAnonymizer):
             ]
             # Make sure the prefixes are also preserved for preserved blocks, so
             # anonymized addresses outside the block don't accidentally collide
-            preserve_prefixes.extend(preserve_addresses)
+            # (new list: the caller's list must not be modified)
+            preserve_prefixes = list(preserve_prefixes) + list(preserve_addresses)
 
         # Preserve relevant prefixes
         for subnet_str in preserve_prefixes:
